@@ -3,7 +3,7 @@
 cd "$(dirname "$0")/.."
 mkdir -p .cache/final
 rc=0
-for id in C01 C02 C03 C04 C05 C06 C07 C08 C09 C10 C11 C12 C13 C14 C15 C16 C17 C18 C19 C20; do
+for id in ${@:-C01 C02 C03 C04 C05 C06 C07 C08 C09 C10 C11 C12 C13 C14 C15 C16 C17 C18 C19 C20}; do
   s=$(date +%s)
   ./vcheck $id --tier quick > .cache/final/$id.log 2>&1
   e=$?
